@@ -34,7 +34,9 @@ type probeConfig struct {
 	Idx int `json:"idx"`
 }
 
-type probePlugin struct{ idx int }
+type probePlugin struct{ idx, inst int }
+
+var probeInst atomic.Int64
 
 type recorder struct {
 	mu     sync.Mutex
@@ -42,12 +44,14 @@ type recorder struct {
 	nSlots int
 	hits   [][]uint8 // [action][slot] number of Do invocations
 	stray  int
+	insts  map[[2]int]struct{} // (action, plugin instance) pairs that worked; instances per action = processors that took part
 }
 
 var curRec atomic.Pointer[recorder]
 
 func (p *probePlugin) Start(config pipeline.AnyConfig, _ *pipeline.ActionPluginParams) {
 	p.idx = config.(*probeConfig).Idx
+	p.inst = int(probeInst.Add(1)) // one plugin instance per processor
 }
 func (p *probePlugin) Stop() {}
 func (p *probePlugin) Do(ev *pipeline.Event) pipeline.ActionResult {
@@ -58,12 +62,27 @@ func (p *probePlugin) Do(ev *pipeline.Event) pipeline.ActionResult {
 			if r.hits[p.idx][slot] < 200 {
 				r.hits[p.idx][slot]++
 			}
+			r.insts[[2]int{p.idx, p.inst}] = struct{}{}
 		} else {
 			r.stray++
 		}
 		r.mu.Unlock()
 	}
 	return pipeline.ActionPass
+}
+
+// activeProcessors is the largest number of instances of one action that
+// handled events (every processor has its own instance of every action).
+func (r *recorder) activeProcessors() int {
+	per := map[int]int{}
+	best := 0
+	for k := range r.insts {
+		per[k[0]]++
+		if per[k[0]] > best {
+			best = per[k[0]]
+		}
+	}
+	return best
 }
 
 func registerProbe() {
@@ -101,18 +120,15 @@ type pipeOut struct {
 
 var pipeSeq atomic.Int64
 
-func runPipeBatch(b *pipeBatch) (res pipeBatchResult) {
-	t0 := time.Now()
-	res.ID = b.ID
-	defer func() { res.Ms = time.Since(t0).Milliseconds() }()
-
+// newProbePipeline builds (does not start) a pipeline fake -> probes -> devnull
+// whose actions are the given selector configs, set up through fd.SetupActions.
+func newProbePipeline(actions []json.RawMessage, parallel, lowMem bool, capacity int) (*pipeline.Pipeline, *fake.Plugin, *devnull.Plugin, int, string) {
 	// the actions array as it would stand in the pipeline config
-	acts := make([]map[string]any, 0, len(b.Actions))
-	for i, raw := range b.Actions {
+	acts := make([]map[string]any, 0, len(actions))
+	for i, raw := range actions {
 		m := map[string]any{}
 		if err := json.Unmarshal(raw, &m); err != nil {
-			res.Err = "bad action json: " + err.Error()
-			return res
+			return nil, nil, nil, 0, "bad action json: " + err.Error()
 		}
 		m["type"] = probeType
 		m["idx"] = i
@@ -121,12 +137,11 @@ func runPipeBatch(b *pipeBatch) (res pipeBatchResult) {
 	actsJSON, _ := json.Marshal(acts)
 	sj, err := simplejson.NewJson(actsJSON)
 	if err != nil {
-		res.Err = "simplejson: " + err.Error()
-		return res
+		return nil, nil, nil, 0, "simplejson: " + err.Error()
 	}
 
 	settings := &pipeline.Settings{
-		Capacity:            64,
+		Capacity:            capacity,
 		MaintenanceInterval: time.Second * 5,
 		EventTimeout:        pipeline.DefaultEventTimeout,
 		Antispam:            pipeline.AntispamSettings{Threshold: pipeline.DefaultAntispamThreshold},
@@ -140,12 +155,12 @@ func runPipeBatch(b *pipeBatch) (res pipeBatchResult) {
 		},
 		Pool: pipeline.PoolTypeStd,
 	}
-	if b.LowMem { // not used by the generated jobs: the low-memory pool can lose a wake-up (a C04 matter) and wedge In
+	if lowMem { // not used by the generated jobs: the low-memory pool can lose a wake-up (a C04 matter) and wedge In
 		settings.Pool = pipeline.PoolTypeLowMem
 	}
 	name := fmt.Sprintf("c14_%d", pipeSeq.Add(1))
 	p := pipeline.New(name, settings, prometheus.NewRegistry(), zap.NewNop())
-	if !b.Parallel {
+	if !parallel {
 		p.DisableParallelism()
 	}
 	inAny, _ := fake.Factory()
@@ -161,12 +176,24 @@ func runPipeBatch(b *pipeBatch) (res pipeBatchResult) {
 		PluginRuntimeInfo: &pipeline.PluginRuntimeInfo{Plugin: out},
 	})
 	if err := fd.SetupActions(p, fd.DefaultPluginRegistry, sj, nil); err != nil {
-		res.Err = "SetupActions: " + err.Error()
-		return res
+		return nil, nil, nil, 0, "SetupActions: " + err.Error()
 	}
 
+	return p, in, out, len(acts), ""
+}
+
+func runPipeBatch(b *pipeBatch) (res pipeBatchResult) {
+	t0 := time.Now()
+	res.ID = b.ID
+	defer func() { res.Ms = time.Since(t0).Milliseconds() }()
+
+	p, in, out, nAct, errText := newProbePipeline(b.Actions, b.Parallel, b.LowMem, 64)
+	if errText != "" {
+		res.Err = errText
+		return res
+	}
 	nE := len(b.Events)
-	rec := &recorder{nAct: len(acts), nSlots: 2 * nE, hits: make([][]uint8, len(acts))}
+	rec := &recorder{nAct: nAct, nSlots: 2 * nE, hits: make([][]uint8, nAct), insts: map[[2]int]struct{}{}}
 	for i := range rec.hits {
 		rec.hits[i] = make([]uint8, 2*nE)
 	}
@@ -211,8 +238,8 @@ func runPipeBatch(b *pipeBatch) (res pipeBatchResult) {
 		res.Err = fmt.Sprintf("probe saw %d invocations outside the batch", rec.stray)
 	}
 	for pass := 0; pass < 2; pass++ {
-		res.Hits[pass] = make([]string, len(acts))
-		for a := range acts {
+		res.Hits[pass] = make([]string, nAct)
+		for a := 0; a < nAct; a++ {
 			row := make([]byte, nE)
 			for ei := 0; ei < nE; ei++ {
 				switch h := rec.hits[a][pass*nE+ei]; {
